@@ -13,6 +13,9 @@ package verifsim
 import (
 	"bufio"
 	"fmt"
+	"go/ast"
+	"go/parser"
+	"go/token"
 	"iter"
 	"os"
 	"sort"
@@ -467,4 +470,82 @@ func Strs(site string) func([]string, error) ([]string, error) {
 		}
 		return out, nil
 	}
+}
+
+// projectRoot returns the directory the normalisation table maps to $P ("" if none).
+func projectRoot() string {
+	mu.Lock()
+	defer mu.Unlock()
+	for _, kv := range norm {
+		if kv[1] == "$P" {
+			return kv[0]
+		}
+	}
+	return ""
+}
+
+// Load is the instrumented form of packages.Load. go/packages parses files on
+// several goroutines and adds them to the caller's FileSet in whatever order
+// they finish, so token.Pos values of different files compare differently from
+// run to run. The simulator owns that order: the files of the project's own
+// packages are parsed by the FIRST ParseFile callback, all at once, in a seeded
+// permutation of their (normalised) paths; every later callback is served from
+// that result. Files outside the project root are parsed as usual (gleece never
+// compares their positions with the project's). The returned package list is
+// then permuted like Pkgs does.
+func Load(site string, cfg *packages.Config, patterns ...string) ([]*packages.Package, error) {
+	root := projectRoot()
+	if cfg == nil || root == "" || cfg.ParseFile != nil {
+		return Pkgs(site)(packages.Load(cfg, patterns...))
+	}
+	// which project files will be parsed? (a cheap listing, no syntax)
+	pre := &packages.Config{Mode: packages.NeedName | packages.NeedFiles | packages.NeedCompiledGoFiles | packages.NeedImports | packages.NeedDeps,
+		Dir: cfg.Dir, Env: cfg.Env, BuildFlags: cfg.BuildFlags, Tests: cfg.Tests, Context: cfg.Context}
+	listed, err := packages.Load(pre, patterns...)
+	if err != nil {
+		return Pkgs(site)(packages.Load(cfg, patterns...))
+	}
+	fileSet := map[string]bool{}
+	packages.Visit(listed, nil, func(p *packages.Package) {
+		for _, f := range p.CompiledGoFiles {
+			if strings.HasPrefix(f, root+"/") && strings.HasSuffix(f, ".go") {
+				fileSet[f] = true
+			}
+		}
+	})
+	files := make([]string, 0, len(fileSet))
+	for f := range fileSet {
+		files = append(files, f)
+	}
+	sort.Strings(files)
+	planned := make([]string, len(files))
+	for i, ix := range order(site+"/parse", files) {
+		planned[i] = files[ix]
+	}
+	type parsed struct {
+		f   *ast.File
+		err error
+	}
+	var once sync.Once
+	results := map[string]parsed{}
+	cp := *cfg
+	const mode = parser.AllErrors | parser.ParseComments // what go/packages uses by default
+	cp.ParseFile = func(fset *token.FileSet, filename string, src []byte) (*ast.File, error) {
+		if !fileSet[filename] {
+			return parser.ParseFile(fset, filename, src, mode)
+		}
+		once.Do(func() {
+			for _, name := range planned {
+				var s any
+				if name == filename {
+					s = src
+				}
+				f, err := parser.ParseFile(fset, name, s, mode)
+				results[name] = parsed{f, err}
+			}
+		})
+		r := results[filename]
+		return r.f, r.err
+	}
+	return Pkgs(site)(packages.Load(&cp, patterns...))
 }
